@@ -1150,6 +1150,42 @@ def _only_callers(allowed):
 I32 = (-(1 << 31), (1 << 31) - 1)
 
 
+def hir_range_arg(F, fn, call_bb):
+    """A range literal handed by reference (`&(0..=24)`) is a promoted constant in the MIR, and its bounds are not in the
+    facts; the HIR has the literal.  For the call in block call_bb: the (lo, hi) of the `lo..=hi` literal among the arguments of
+    the HIR call to the same function on the same line, or None."""
+    from facts import hir_walk
+    t = fn.blocks[call_bb]["term"]
+    if t["k"] != "call" or "callee" not in t:
+        return None
+    name = t["callee"]["path"]
+    root = fn
+    if fn.raw.get("root"):
+        root = F.fns.get(fn.raw["root"]["id"], fn)
+    try:
+        h = F.hir_of(root)
+    except AnchorLost:
+        return None
+    lines = {t["loc"].get("line"), (t.get("fn_loc") or {}).get("line")}
+    hits = [c for c in hir_walk(h["body"]) if c.get("k") == "Call" and c["f"].get("k") == "Path" and c["f"]["r"].get("path", "") == name and c.get("line") in lines]
+    if len(hits) != 1:
+        return None
+    for a in hits[0]["args"]:
+        e = a
+        while e.get("k") in ("AddrOf", "DropTemps", "Paren") and e.get("e"):
+            e = e["e"]
+        if e.get("k") == "Call" and e["f"].get("k") == "Path" and e["f"]["r"].get("path", "").endswith("RangeInclusive::<Idx>::new") and len(e["args"]) == 2:
+            vals = []
+            for x in e["args"]:
+                neg = x.get("k") == "Unary" and x.get("op") == "Neg"
+                lit = x["a"] if neg else x
+                if lit.get("k") != "Lit" or lit["lit"].get("lit") != "int":
+                    return None
+                vals.append(-lit["lit"]["v"] if neg else lit["lit"]["v"])
+            return tuple(vals)
+    return None
+
+
 def ival(F, fn, ap, depth=0, bb=None):
     """Interval of an integer access path, or None when nothing bounds it (bb: the block whose dominating guards may be used).  Sources of bounds: constants; the Some payload of
     datetime::parse_range / the Ok payload of numeric_match (their RangeInclusive argument; parse_range's body is checked to filter
@@ -1203,6 +1239,8 @@ def ival(F, fn, ap, depth=0, bb=None):
                 lo, hi = ival(F, fn, rr[2][0], depth + 1), ival(F, fn, rr[2][1], depth + 1)
                 if lo and hi and lo[0] == lo[1] and hi[0] == hi[1]:
                     return (lo[0], hi[0])
+            if rr[0] == "const" and "promoted" in str(rr[1]) and isinstance(r[3], int):
+                return hir_range_arg(F, fn, r[3])      # `&(lo..=hi)`: a promoted constant, read from the HIR
             return None
         if name == "parsing::datetime::parse_range" and pr == ("as Some", "0") and _parse_range_filters(F):
             return rng(args[2])
